@@ -28,15 +28,19 @@ TRUSTED_BASE = [
     "hand-written model GraphiqModel/Model/{Gauss,DMSem,Noise}.lean tied to compiler_base.py, noise_models.py, stabilizer/state.py, "
     "density_matrix/{state,functions,compiler}.py, stabilizer/compiler.py by this correspondence run",
     "Model/Tableau.lean (C07) for the per-branch tableau operations",
-    "clause (c) (DM = sum_k p_k rho(T_k): measurement-free circuits, and circuits whose measurements find all branches agreeing - the model's "
-    "nonUniform flag off, weight > 2e-8 - all n) is proved about the exact models (Properties/C06.lean: dm_equals_mixture, "
-    "dm_equals_mixture_with_uniform_measurements); the driver's per-input evaluation of both sides (n<=4) now only tests the compiled "
-    "definitions against numpy; the harness uses the same flag to separate finding F2 from a genuine backend disagreement",
+    "clause (c) (DM = sum_k p_k rho(T_k)) is proved about the exact models for measurement-free circuits and - for the repaired joint "
+    "MixedStabilizer.apply_measurement - for circuits with measurements, no condition on the outcomes (Properties/C06.lean: dm_equals_mixture, "
+    "dm_equals_mixture_with_measurements); the driver's per-input evaluation of both sides (n<=4) only tests the compiled definitions against numpy",
+    "two modelled versions of MixedStabilizer.apply_measurement: Mix.measure (repaired, joint) and Mix.measureOld (graphiq before the repair of "
+    "finding F2, per branch); `repaired()` probes the implementation once per process on the F2 witness and selects the model (driver token "
+    "meas=old); a backend disagreement after a measurement is the known finding F2 only on unrepaired code, an ordinary violation otherwise",
     "positivity of the *floating-point* matrix is checked by the oracle (min eigenvalue >= -1e-9), not proved",
     "harness, line protocol, logging noise wrappers, numpy reference converter",
 ]
 ASSUMPTIONS = [
-    "measurement_determinism in {0, 1} (probabilistic draws are C01's concern)",
+    "measurement_determinism in {0, 1} in the compile comparisons; the \"probabilistic\" setting of the repaired joint measurement is compared "
+    "separately with the draw np.random.random() scripted (measdraw_check: model Mix.measureDraw, plus a numpy oracle for the measured state); "
+    "np.random.randint is patched to fail there (the joint measurement must not draw per branch)",
     "additive noise on measurement-type operations is outside the quantifier (the DM compiler rejects it with ValueError, "
     "the stabilizer compiler ignores it); it is exercised in the malformed stream only, error class compared",
     "replacement noise models are outside the quantifier (placement branch modelled, state not)",
